@@ -76,6 +76,7 @@ class WriterContract:
     def apply(self, interp, args, kwargs):
         buffer, value = _bind(args, kwargs, ("buffer", self.param))
         ctx = interp.ctx
+        require_model_buffer(interp, buffer, self.name)
         if not isinstance(buffer, (Sink, LocalBytesIO)):
             raise Undecided(f"{self.name}: buffer argument is not a sink")
         req = self.requires(ctx, value)
@@ -243,6 +244,16 @@ class ArrayWriterContract(WriterContract):
         return None
 
 
+def require_model_buffer(interp, buffer, who):
+    """a contracted writer/reader must be handed a stream of this activation (the ghost sink/source or a
+    fresh local buffer); a real long-lived object (module-level or captured buffer) is shared state"""
+    if isinstance(buffer, (Sink, LocalBytesIO, Source)):
+        return
+    from kvc.interp import FrameViolation
+    interp.ctx.effects.append(("call-on-shared", f"{who}({type(buffer).__name__})", "stream argument", "shared object"))
+    raise FrameViolation(f"FRAME: {who} is handed a shared {type(buffer).__name__} object (not a buffer of this call)")
+
+
 class TaggedFieldContract:
     """write_tagged_field(buffer, tag, writer, value): uv(tag) ++ uv(|p|) ++ p, p = Enc(d_writer, value)"""
     is_writer = True
@@ -254,6 +265,7 @@ class TaggedFieldContract:
     def apply(self, interp, args, kwargs):
         buffer, tag, writer, value = _bind(args, kwargs, ("buffer", "tag", "writer", "value"))
         ctx = interp.ctx
+        require_model_buffer(interp, buffer, "write_tagged_field")
         wc = self.lookup(writer)
         if wc is None or not getattr(wc, "is_writer", False):
             raise Undecided("write_tagged_field: writer argument has no writer contract")
@@ -338,6 +350,7 @@ class ReaderContract:
 
     def read(self, interp, src):
         ctx = interp.ctx
+        require_model_buffer(interp, src, self.name)
         if not isinstance(src, (Source, LocalBytesIO)):
             raise Undecided(f"{self.name}: buffer argument is not a source")
         from kio.serial.errors import BufferUnderflow, UnexpectedNull
